@@ -186,6 +186,9 @@ def run(
                 keep = True
             if keep:
                 r.trace.append(line)
+    if re.search(r"Error: Assumption .* is false", out):
+        r.error = f"TLC failed [{tag}]: " + re.search(r"Error: Assumption .* is false", out).group(0)
+        return r
     ok_end = "Model checking completed" in out or "Finished in" in out or simulate is not None
     if rc not in (0, 12, 13, 10, 11) or (not ok_end and not r.invariant_violated and not r.deadlock):
         if rc == -9:
